@@ -918,6 +918,24 @@ def overrun_evidence(prog, s, ctx):
                 # the same criterion as at the site itself: some test of the size of that container precedes the call
                 if any((actual + '.size') in (l, r) for l, op, r, _ in cf_) or size_tested_somewhere(g_, Rg_, actual):
                     return None
+            # a member container reached through a chain of members of the same class called on the same object: the test
+            # may sit two or three calls up (write -> writeMatrix -> writeValue)
+            if C.startswith('this.'):
+                seen_, frontier = {f.usr}, [f]
+                for _lvl in range(3):
+                    nxt = []
+                    for h_ in frontier:
+                        for g_, cn_ in prog.callers_of(h_.usr):
+                            if g_.usr in seen_ or g_.cls != f.cls:
+                                continue
+                            o_ = g_.call_obj(cn_)
+                            if o_ is not None and g_.nodes[g_.strip(o_, 'all')]['k'] != 'CXXThisExpr':
+                                continue
+                            seen_.add(g_.usr)
+                            nxt.append(g_)
+                            if size_tested_somewhere(g_, ctx.setdefault(('R', g_.usr), Renderer(g_)), C):
+                                return None
+                    frontier = nxt
             return 'element %s is read with no test of %s (a shorter container reaches it)' % (In['cv'], size)
         return None
     # E4: the index is computed from a value just read from the file and nothing compares it (or the
